@@ -23,7 +23,7 @@ MANIFEST = {
 }
 MANIFEST["text"] += " " + (
     'Added after the seeding waves: maps with a zero-length road (two co-located nodes); the SQLite backend, freshly built and reopened (the metric is selected per map object). GRID inputs are run with the first-order model only (see DESIGN.md 11.4).')
-BUDGET = {"quick": 420, "thorough": 3000}
+BUDGET = {"quick": 900, "thorough": 3000}
 RULE = ("states = (input, anchor, family, radius setting) pairs of runs compared, transitions = matcher executions, traces validated = "
         "pairs compared; non-trivial = both runs return a non-empty match with a finite probability; outcomes = (index, rounded "
         "planar probability).")
